@@ -2,6 +2,9 @@
 // Bounded liveness on the simulated step clock: a call that exhausts its step budget is declared
 // non-terminating and unwound in-process; no wall clock is involved.  See DESIGN.md section 3.
 #include "lib.hpp"
+// the documented NIPALS convergence criterion of PCA (pca.h at the pinned commit); deliberately NOT taken from the header of
+// the tree under test: a tree that loosens the criterion must not loosen the oracle with it
+#define DOC_PCA_CRITERION 1e-10
 #include "linalg.hpp"
 #include <algorithm>
 
@@ -246,7 +249,7 @@ struct HLive : Harness {
             } else {
               if (deg.varexp[k] != deg.varexp[k]) { char m[200]; snprintf(m, sizeof m, "PCA on %s input: explained variance of component %zu (beyond rank %zu) is NaN", deg_name[c.deg], k + 1, rank); o.fail("nan-beyond-rank", m); }
               // zero up to what the convergence criterion of the earlier components can leave behind (same tau as C01's bookkeeping)
-              else if (fabs(deg.varexp[k]) > 200.0 * ncomp_eff * sqrt((double)c.n * PCACONVERGENCE)) { char m[200]; snprintf(m, sizeof m, "PCA: explained variance beyond the rank is %.3g, not zero", deg.varexp[k]); o.fail("variance-beyond-rank", m); }
+              else if (fabs(deg.varexp[k]) > 200.0 * ncomp_eff * sqrt((double)c.n * DOC_PCA_CRITERION)) { char m[200]; snprintf(m, sizeof m, "PCA: explained variance beyond the rank is %.3g, not zero", deg.varexp[k]); o.fail("variance-beyond-rank", m); }
             }
           }
           o.counters["probe.rank_checked"]++;
